@@ -372,6 +372,22 @@ def check_scope(ctx, rule, roots, scope_prefixes=None, prims=None, what="output"
     eng = Engine(facts, prims or WRITER_PRIMS, scope)
     res = eng.run()
     nsrc = 0
+    import re as _re
+    grouped = {}      # root source -> list of (sink key, where, message)
+
+    def root_of(text):
+        """the innermost `hash iteration <kind> at file:line` of a provenance text -> (key, where) with the key naming the
+        function that iterates (no line number)"""
+        m = _re.findall(r"hash iteration (\w+) at ([^:()\s]+):(\d+)", text or "")
+        if not m:
+            return None
+        kind, file, line = m[-1]
+        owner = None
+        for f in facts.fns_by_file().get(file, []):
+            if f.lo <= int(line) <= f.hi and (owner is None or f.lo >= owner.lo):
+                owner = f
+        oname = (owner.parent or owner.id) if owner is not None else file
+        return "order-source:%s:%s" % (oname, kind), "%s:%s" % (file, line)
     for fid in sorted(scope):
         r = res.get(fid)
         if r is None:
@@ -382,6 +398,10 @@ def check_scope(ctx, rule, roots, scope_prefixes=None, prims=None, what="output"
             if key in allow:
                 ctx.ok(rule, key, "reviewed: " + allow[key], fn.where(b))
                 continue
+            ro = root_of(src) or root_of(msg)
+            if ro is not None:
+                grouped.setdefault(ro, []).append((key, fn.where(b), msg))
+                continue
             ctx.violation(rule, key, "%s — the %s then depends on the process's hash seed (source: %s)" % (msg, what, src),
                           fn.where(b), {"call_path": facts.path_to(pred, fid)[-6:]})
         if returns_matter and fid in roots and r["ret"]:
@@ -389,11 +409,22 @@ def check_scope(ctx, rule, roots, scope_prefixes=None, prims=None, what="output"
             if key in allow:
                 ctx.ok(rule, key, "reviewed: " + allow[key], fn.where())
             else:
-                ctx.violation(rule, key, "entry point returns hash-ordered data (%s): the %s differs between runs" % (r["ret"], what),
-                              fn.where())
+                ro = root_of(r["ret"])
+                if ro is not None:
+                    grouped.setdefault(ro, []).append((key, fn.where(), "entry point returns hash-ordered data (%s)" % r["ret"]))
+                else:
+                    ctx.violation(rule, key, "entry point returns hash-ordered data (%s): the %s differs between runs" % (r["ret"], what),
+                                  fn.where())
         for l, w in r["ord"].items():
             if w.startswith("hash iteration"):
                 nsrc += 1
+    # one report per root cause: the hash iteration, with the sinks it reaches as the witness
+    for (skey, swhere), sinks in sorted(grouped.items()):
+        sinks.sort()
+        ctx.violation(rule, skey, "the hash-map/set iteration at %s is not put into a defined order before its elements reach the %s: "
+                      "%d sink(s), e.g. %s — the %s then depends on the process's hash seed"
+                      % (swhere, what, len(sinks), "; ".join("%s at %s" % (k, w) for k, w, m in sinks[:3]), what), swhere,
+                      {"sinks": [{"sink": k, "where": w, "how": m[:300]} for k, w, m in sinks[:40]]})
     for fid_, where_, name_ in sorted(set(eng.lossy_sorts)):
         if fid_ in scope or (facts.fns[fid_].parent or "") in scope:
             ctx.note("sort with a non-injective key (%s) at %s does not fix the order of tied elements" % (name_, where_))
